@@ -22,5 +22,5 @@ unset RUSTFLAGS
   RUSTFLAGS="--cfg gecs_verif -Zsanitizer=address" cargo +nightly build --profile rel --bin vh-run --target x86_64-unknown-linux-gnu --target-dir target-asan >/dev/null 2>&1
 )
 (cd proggen && cargo build --release --target-dir target >/dev/null 2>&1; cargo build --release --target-dir target-events --features events >/dev/null 2>&1)
-(cd proggen/host && cargo build >/dev/null 2>&1; cargo build --target-dir target-events --features gecs/events >/dev/null 2>&1)
+(cd proggen/host && cargo build >/dev/null 2>&1; cargo build --target-dir target-events --features gecs/events >/dev/null 2>&1; cargo build --target-dir target-32_components --features gecs/32_components >/dev/null 2>&1)
 echo "setup ok"
